@@ -11,6 +11,8 @@ from props import _nfamily
 from common import cerberus
 
 LEVEL = "proof"
+import vrun as _vrun_refs
+_vrun_refs.P_REFS = 0.15      # some generated schemas carry registry references (validator-bound registries)
 COQ_FILES = ["theories/Model/Normalize.v", "theories/Model/FactsOk.v", "theories/Proofs/NormalizeProofs.v", "theories/Properties/C02.v"]
 FACT_GROUPS = ["F11", "F6", "F8"]
 ALLOWED_AXIOMS = []
